@@ -611,6 +611,14 @@ MERGE_PAIRS = [
     ("int-enum", {"type": "integer"}, {"type": "integer", "enum": [0, 1]}, False, [0, 1], [7]),
     ("str-lit", {"type": "string"}, {"type": "string", "enum": ["a", "b", ""]}, True, ["a", ""], ["zz"]),
     ("int-lit", {"type": "integer"}, {"type": "integer", "enum": [0, 1]}, True, [0, 1], [7]),
+    # untyped (any) declaration merged with a typed one: the LATER declaration's default wins, converted by the typed kind
+    ("any-str", {}, {"type": "string"}, False, ["draft", "final"], []),
+    ("any-int", {}, {"type": "integer"}, False, [1, 5], []),
+    ("any-num", {}, {"type": "number"}, False, [1, 2.5], []),
+    ("any-bool", {}, {"type": "boolean"}, False, [True, False], []),
+    ("any-date", {}, {"type": "string", "format": "date"}, False, ["2020-01-01", "2024-06-30"], []),
+    ("any-enum", {}, {"type": "string", "enum": ["draft", "final"]}, False, ["draft", "final"], []),
+    ("any-lit", {}, {"type": "string", "enum": ["draft", "final"]}, True, ["draft", "final"], []),
     ("same-int", {"type": "integer"}, {"type": "integer"}, False, [0, 5], []),
     ("same-bool", {"type": "boolean"}, {"type": "boolean"}, False, [False, True], []),
     ("same-str", {"type": "string"}, {"type": "string"}, False, ["", "x"], []),
@@ -621,7 +629,7 @@ MERGE_PAIRS = [
 def merge_cases(tier):
     out = []
     for label, wide, narrow, lit, ins, outs in MERGE_PAIRS:
-        combos = [(ins[0], None), (None, ins[0]), (ins[0], ins[-1]), (ins[-1], None), (None, ins[-1])] + [(o, None) for o in outs]
+        combos = [(ins[0], None), (None, ins[0]), (ins[0], ins[-1]), (ins[-1], ins[0]), (ins[-1], None), (None, ins[-1])] + [(o, None) for o in outs]
         if tier == "thorough":
             combos += [(a, b) for a in ins for b in ins] + [(None, None)]
         seen = set()
